@@ -393,7 +393,9 @@ func c25LimitsAndSweep(c *core.Ctx) {
 			}
 			// a method of the list that links its argument in
 			if h := cc.StaticCallee(); h.Blocks != nil && h.Pkg == fn.Pkg && h != fn {
-				return len(core.CallsIn(h, func(_ ssa.Instruction, hc *ssa.CallCommon) bool { return hc.StaticCallee() != nil && isListInsert(hc.StaticCallee()) })) > 0
+				return len(core.CallsIn(h, func(_ ssa.Instruction, hc *ssa.CallCommon) bool {
+					return hc.StaticCallee() != nil && isListInsert(hc.StaticCallee())
+				})) > 0
 			}
 			return false
 		}
